@@ -30,10 +30,11 @@ Allowed(R, q) ==
       [] q.kind = "PYRONAME" -> {r.target : r \in {x \in Visible(R, q.delay) : x.ns = q.where /\ x.name = q.name}}
       [] q.kind = "PYROMETA" -> {r.target : r \in {x \in Visible(R, q.delay) : x.ns = q.where /\ q.tags \subseteq x.tags}}
 
+\* the registration sets considered: at most two entries, a name server holds a name once
+Pairs == {p \in Regs \X Regs : p[1].ns # p[2].ns \/ p[1].name # p[2].name}
+SmallRegSets == {{}} \cup {{a} : a \in Regs} \cup {{p[1], p[2]} : p \in Pairs}
 VARIABLES regs, q
-Init == /\ regs \in SUBSET Regs /\ Cardinality(regs) <= 2
-        /\ \A a, b \in regs : (a.ns = b.ns /\ a.name = b.name) => a = b      \* a name server holds a name once
-        /\ q \in Queries
+Init == regs \in SmallRegSets /\ q \in Queries
 Next == UNCHANGED <<regs, q>>
 Spec == Init /\ [][Next]_<<regs, q>>
 \* a PYRONAME query has at most one answer; an explicit location never falls back to the default name server
